@@ -151,8 +151,10 @@ reg("C10",
                           P.mon_list_agrees_with_lookup(rr) if rr.prog.tags.get("listing_only") else
                           P.mon_bucket(rr) if "bucket" in rr.prog.tags else
                           P.mon_history(rr) + P.mon_list_agrees_with_lookup(rr))],
+    extra=lambda seed, tier, flavours: LG.leg_fault_injection(LG.fault_cases_list(G.Rng(seed + 105)), flavours[0], tier),
     nontrivial=lambda rr: has(rr, ("list",), ("ok",)),
-    rule="as C05 and C09 (histories with remove, remove_hash, remove_fully, clear over keys that share content); every "
+    rule="(plus errno injection into every system call of a listing over three live buckets: the listing may contain error "
+         "items but never silently leaves out a live entry) as C05 and C09 (histories with remove, remove_hash, remove_fully, clear over keys that share content); every "
          "listing is compared item by item with the lookups of all keys issued just before it; plus programs in which 2-3 "
          "keys share one content file that disappears through one of them before the others are removed: a removal that "
          "answers ok has removed the key from lookups and listings, one that answers an error has left it; plus buckets "
